@@ -221,6 +221,96 @@ func checkC15(c *Ctx, r *Report) {
 	c.checkChanSize(r)
 	c.checkStorageKeys(r, cfg)
 	c.checkConfigBoundsAll(r, cfg)
+	c.checkAttrLookup(r)
+}
+
+// checkAttrLookup: "configured value, else default, else error" — presence and value of an attribute must come
+// from ONE query of the storage's leaf data. flatten.Storage.Has is also true for keys that only have sub-keys and
+// for empty containers, for which Get returns ""; a Has+Get pair therefore turns such keys into the empty string
+// instead of falling back to the default or failing.
+func (c *Ctx) checkAttrLookup(r *Report) {
+	inj := c.logFunc("injectAttribute")
+	if inj == nil {
+		r.Undecided("C15.attr-lookup:injectAttribute", "", "attribute injector not found")
+		return
+	}
+	key := "C15.attr-lookup:" + fname(inj)
+	fr := &Frame{Fn: inj}
+	var bad []string
+	nLook := 0
+	defaultOnMiss, errorOnNoDefault := false, false
+	eachInstr(inj, func(in ssa.Instruction) {
+		switch x := in.(type) {
+		case *ssa.Lookup:
+			if x.CommaOk && strings.Contains(c.prov(x.X, fr).String(), "RawData(") {
+				nLook++
+			}
+		case *ssa.Call:
+			s := x.Common().StaticCallee()
+			if s != nil && s.Object() != nil && s.Object().Pkg() != nil && strings.HasSuffix(s.Object().Pkg().Path(), "flatten") && s.Signature.Recv() != nil {
+				if s.Name() == "Has" || s.Name() == "Get" {
+					bad = append(bad, fmt.Sprintf("(*Storage).%s at %s", s.Name(), c.instrPos(in)))
+				}
+			}
+		}
+	})
+	// the default is consulted on the miss edge and its absence is an error
+	eachInstr(inj, func(in ssa.Instruction) {
+		call, ok := in.(*ssa.Call)
+		if !ok {
+			return
+		}
+		s := call.Common().StaticCallee()
+		if s == nil || s.Name() != "Lookup" || recvNamed(s) == nil || recvNamed(s).Obj().Name() != "PluginTag" {
+			return
+		}
+		if k, ok := constString(call.Call.Args[1]); !ok || k != "default" {
+			return
+		}
+		for _, g := range guardsOfInstr(in) {
+			if ex, ok := g.Cond.(*ssa.Extract); ok && ex.Index == 1 && !g.Polarity {
+				if lk, ok := ex.Tuple.(*ssa.Lookup); ok && lk.CommaOk {
+					defaultOnMiss = true
+				}
+			}
+		}
+		// !ok of the default look-up leads to an error return
+		if refs := call.Referrers(); refs != nil {
+			for _, u := range *refs {
+				if ex, ok := u.(*ssa.Extract); ok && ex.Index == 1 {
+					if rr := ex.Referrers(); rr != nil {
+						for _, q := range *rr {
+							if iff, ok := q.(*ssa.If); ok {
+								fb := iff.Block().Succs[1]
+								if ret, ok := fb.Instrs[len(fb.Instrs)-1].(*ssa.Return); ok && !returnsNilErr(ret, fb) {
+									errorOnNoDefault = true
+								}
+							}
+						}
+					}
+				}
+			}
+		}
+	})
+	switch {
+	case len(bad) > 0:
+		r.Fail(key, c.pos(inj.Pos()), "attribute presence/value is read with %s instead of one comma-ok look-up in the storage's leaf data: for a key that only has sub-keys, or whose value is an empty container, Has is true and Get returns \"\", so the attribute silently becomes the empty string instead of taking its default or failing", strings.Join(bad, ", "))
+	case nLook < 1:
+		r.Fail(key, c.pos(inj.Pos()), "no comma-ok look-up of the attribute key in the storage's leaf data")
+	case !defaultOnMiss || !errorOnNoDefault:
+		r.Fail(key, c.pos(inj.Pos()), "the chain configured value → declared default → error is broken (default consulted on miss=%v, error without default=%v)", defaultOnMiss, errorOnNoDefault)
+	default:
+		r.OK(key, "%d comma-ok leaf look-ups; default consulted exactly on a miss; no default ⇒ error", nLook)
+	}
+}
+
+func init() {
+	_ = token.ADD
+}
+
+func unusedAttrLookup() {}
+
+func (c *Ctx) placeholderAttr() {
 }
 
 // ---- registry
